@@ -18,7 +18,7 @@ def _jobs(ctx):
     n = 30 if q else 400
     return (sc.corpus_job(ctx) + [(f'comp{k}', ['compete', n]) for k in range(6 if q else 12)]
             + [(f'ship{k}', ['shipped', n]) for k in range(3 if q else 8)] + [(f'queue{k}', ['queue', n]) for k in range(3 if q else 6)]
-            + [(f'varfix{k}', ['varfix', 2 * n]) for k in range(3 if q else 6)] + [('fixrec', ['fixrec_sto', n]), ('api', ['ops', n]), ('adaptive', ['adaptive', 2 * n]), ('dominoes', ['dominoes', n]), ('rates', ['rates_sto', 2 * n])])
+            + [(f'varfix{k}', ['varfix', 2 * n]) for k in range(3 if q else 6)] + [('fixrec', ['fixrec_sto', n]), ('api', ['ops', n]), ('adaptive', ['adaptive', 2 * n]), ('dominoes', ['dominoes', n]), ('rates', ['rates_sto', 2 * n])] + [(f'rates{k}', ['rates_sto', 2 * n]) for k in range(3 if q else 6)])
 
 
 def _nontrivial(e):
